@@ -7,6 +7,11 @@ func init() {
 		NeedCG:      true,
 		Run: func(w *World, r *Report, tier string) {
 			guard(r, "EFF", func() { ruleEFF(w, r, effOpts{true, true, true, true, true}) })
+			guard(r, "WGUARD", func() { ruleWGUARD(w, r, false) })
+			guard(r, "REPORT", func() { ruleREPORT(w, r) })
+			guard(r, "REPORT-PROP", func() { ruleREPORTPROP(w, r) })
+			guard(r, "SKIPOK", func() { ruleSKIPOK(w, r) })
+			guard(r, "CREATE-PATHS", func() { ruleCREATEPATHS(w, r) })
 		},
 	})
 }
